@@ -395,6 +395,8 @@ def rule_range(ck):
         g = guards_of(stmt, f.node)
         mode = None
         for test, pol in g:
+            while isinstance(test, ast.UnaryOp) and isinstance(test.op, ast.Not):
+                test, pol = test.operand, not pol
             if isinstance(test, ast.Name) and test.id in f.params:
                 mode = ('open' if pol else 'closed')
                 mode_param = test.id
@@ -481,11 +483,20 @@ def rule_range(ck):
         spacing_names = {'h'}
     for n in all_nodes(f):
         if isinstance(n, ast.If):
-            t = N.nf(n.test)
-            if t in (N.nf('bins.size == 1'), N.nf('len(bins) == 1'), N.nf('bins.shape[0] == 1')):
+            try:
+                t = N.nf(n.test)
+            except Exception:
+                continue
+            sizes = ('bins.size', 'len(bins)', 'bins.shape[0]')
+            branch = None
+            if any(t == N.nf('%s == 1' % z) for z in sizes):
+                branch = n.body
+            elif any(t in (N.nf('%s != 1' % z), N.nf('%s > 1' % z), N.nf('%s >= 2' % z)) for z in sizes):
+                branch = n.orelse          # `if size != 1: ... else: <single edge>`
+            if branch is not None:
                 sets_rc = any(isinstance(s, ast.Assign) and isinstance(s.targets[0], ast.Name) and
-                              s.targets[0].id == 'right_continuous' and is_true(s.value) for s in n.body)
-                hs = [s for s in n.body if isinstance(s, ast.Assign) and isinstance(s.targets[0], ast.Name)
+                              s.targets[0].id == 'right_continuous' and is_true(s.value) for s in branch)
+                hs = [s for s in branch if isinstance(s, ast.Assign) and isinstance(s.targets[0], ast.Name)
                       and s.targets[0].id in spacing_names]
                 hpos = bool(hs) and all((const_value(s.value) is not NotImplemented and const_value(s.value) > 0) for s in hs)
                 found = True
